@@ -32,9 +32,54 @@ def observe(probe, text):
     if not obs.get("ok"):
         return ("reject", obs["diag"])
     try:
-        return ("ok", norm.library(obs["dump"], obs.get("addrs")))
+        return ("ok", (norm.library(obs["dump"], obs.get("addrs")), raw_fold(obs["dump"])))
     except norm.NormError as e:
         raise core.MachineryError("normaliser: %s" % e)
+
+
+def lib_diff(v0, v1):
+    """(path, a, b) where the two observed libraries differ - in normal form, else in the folded raw dump - or None"""
+    d = norm.diff(v0[0], v1[0])
+    if d is not None:
+        return d
+    return raw_diff(v0[1], v1[1])
+
+
+def raw_fold(node):
+    """The parser's own dump with the letter case of names folded (positions are already blanked by the probe) and
+    nothing else normalised: both sides of the comparison come from the same parser, so representation choices that
+    the normal form deliberately ignores (a sign as operator or as part of the literal, ...) must agree as well."""
+    if isinstance(node, dict):
+        if node.get("_") == "CharacterStringLiteral":
+            return node
+        return {k: raw_fold(v) for k, v in node.items()}
+    if isinstance(node, list):
+        return [raw_fold(v) for v in node]
+    if isinstance(node, str):
+        return node.lower()
+    return node
+
+
+def raw_diff(a, b, path="lib"):
+    if type(a) != type(b):
+        return (path, a, b)
+    if isinstance(a, dict):
+        for k in sorted(set(a) | set(b)):
+            if k not in a or k not in b:
+                return (path + "/" + k, a.get(k), b.get(k))
+            d = raw_diff(a[k], b[k], path + "/" + (str(a.get("_")) if k == "#" else k))
+            if d:
+                return d
+        return None
+    if isinstance(a, list):
+        if len(a) != len(b):
+            return (path + "/len", len(a), len(b))
+        for i, (x, y) in enumerate(zip(a, b)):
+            d = raw_diff(x, y, path + "[]")
+            if d:
+                return d
+        return None
+    return None if a == b else (path, a, b)
 
 
 def verdict(probe, text):
@@ -81,10 +126,16 @@ def compare(probe, res, toks, atoms, rng, dims, with_verdict, starts=None):
                           {"code": v1["code"], "at": found, "msg": lab["msg"][:200]}, case)
             good = False
             continue
-        d = norm.diff(v0, v1)
+        d = norm.diff(v0[0], v1[0])
         if d is not None:
             path = re.sub(r"\[\d+\]", "[]", d[0])
             res.violation("different-library", "%s:diff:%s" % (dim, path),
+                          {"path": d[0], "canonical": short(d[1]), "respelled": short(d[2])}, case)
+            good = False
+            continue
+        d = raw_diff(v0[1], v1[1])
+        if d is not None:
+            res.violation("different-library", "%s:rawdiff:%s" % (dim, d[0][-60:]),
                           {"path": d[0], "canonical": short(d[1]), "respelled": short(d[2])}, case)
             good = False
             continue
@@ -213,8 +264,8 @@ def shard(shard_i, nshards, payload):
                 case = {"canonical": spell.canonical(ref), "respelled": spell.canonical(toks), "dimension": "endif-chain"}
                 if k0 == "ok" and k1 != "ok":
                     res.violation("rejected-respelling", "endif-chain:reject", str(v1)[:200], case)
-                elif k0 == "ok" and norm.diff(v0, v1) is not None:
-                    res.violation("different-library", "endif-chain:diff", str(norm.diff(v0, v1))[:200], case)
+                elif k0 == "ok" and lib_diff(v0, v1) is not None:
+                    res.violation("different-library", "endif-chain:diff", str(lib_diff(v0, v1))[:200], case)
                 else:
                     res.distinct.add(core.key_of("endif", depth, mask))
     finally:
@@ -266,8 +317,8 @@ def witnesses():
                 res.violation("rejected-respelling", "%s:reject:%s" % (dim, v1["code"]), v1["primary"]["msg"][:200], case)
             elif k1 == "crash":
                 res.violation("crash", "%s:crash" % dim, v1, case)
-            elif k1 == "ok" and norm.diff(v0, v1) is not None:
-                d = norm.diff(v0, v1)
+            elif k1 == "ok" and lib_diff(v0, v1) is not None:
+                d = lib_diff(v0, v1)
                 res.violation("different-library", "%s:diff:%s" % (dim, re.sub(r"\[\d+\]", "[]", d[0])), short(d), case)
     finally:
         probe.close()
@@ -285,7 +336,7 @@ def replay(case):
         return True, "canonical not accepted (%s): nothing to compare" % k0
     if k1 != "ok":
         return False, "respelled: %s %s" % (k1, str(v1)[:300])
-    d = norm.diff(v0, v1)
+    d = lib_diff(v0, v1)
     if d:
         return False, "libraries differ at %s: %s vs %s" % (d[0], short(d[1]), short(d[2]))
     return True, "held"
